@@ -299,7 +299,7 @@ func ruleR10(p *Prog) []Ob {
 			}
 		}
 		{
-			ob := Ob{Rule: "R10", Inst: "a2:bound-counts-key-and-value-only:" + label, Props: append(append([]string{}, props...), "C17", "C01"), Pos: p.posStr(fn.Pos()), Func: funcLabel(fn), Nontrivial: true}
+			ob := Ob{Rule: "R10", Inst: "a2:bound-counts-key-and-value-only:" + label, Props: append(append([]string{}, props...), "C17", "C01", "C13"), Pos: p.posStr(fn.Pos()), Func: funcLabel(fn), Nontrivial: true}
 			if len(boundExtra) > 0 {
 				ob.Status, ob.Msg, ob.Path = Violated, "the decoder's size limit counts bytes (header, trailer) that the writers' limit on key + value does not: a record the writers accept is rejected as corrupted when read back in this format", uniqStrings(boundExtra)
 			} else {
